@@ -11,6 +11,8 @@ NOTE = ("Trusted base: Go type checker, go/cfg, go/ssa and VTA of golang.org/x/t
         "current source; it does NOT decide the run-time behaviour (row sets, values, schedules) - see DESIGN.md section 4 'Not decided'.")
 
 CLAIMED = {
+ "C01": ("4 (C01)", "custom static analysis: SSA forward taint with local-cell tracking and parameter-to-sink summaries over static calls; who-writes check of Statement.Vars with must-pass pairing to BindVarTo; loop-iteration path enumeration for one-bind-per-element",
+   "Static, all-functions of clause/gorm/callbacks: no flow from a value-role field, the AddVar variadic, BuildCondition args or a field.ValueOf result into a text sink (WriteString/WriteByte/WriteQuoted/QuoteTo, SQL-text or identifier fields) - values leave only through AddVar/BindVarTo; every writer of Statement.Vars is an append of one value followed on every path by BindVarTo of that value, a reset, an adoption, the NamedArg surplus arm or a scratch statement; every element-binding loop calls AddVar exactly once per iteration and empty-slice arms write NULL / bind nil. Placeholder/value alignment for every chain and third-party dialectors are NOT decided."),
  "C04": ("4 (C04)", "custom static analysis: symbolic path enumeration of (*DB).Transaction and the Commit/Rollback/SavePoint/RollbackTo wrappers with per-node fact snapshots, go/cfg guard facts in the deferred closures, SSA flow of BeginTx results",
    "Static, all-paths: the user function of a Transaction block is called only after a deferred rollback of the begun handle (or of the save point just taken, same name) is registered and only when Begin/SavePoint succeeded; the rollback is conditioned on flag || named-result error with the flag cleared only after the function returned; success commits and returns Commit().Error through the named result, error paths never commit; Begin installs every transaction it begins as the derived handle's pool; Commit/Rollback forward or report ErrInvalidTransaction on every path; SavePoint/RollbackTo restore the prepared-statement pool on every path. What the database does on COMMIT/ROLLBACK is NOT decided."),
  "C05": ("4 (C05)", "custom static analysis: registration-sequence check, symbolic path enumeration of the transaction callbacks, go/cfg guard-fact dominance of every effect site (with SSA effect summaries), SSA error-flow discipline with a repository-specific sink list, SSA origin of nested-call receivers",
